@@ -92,7 +92,8 @@ CHECKS = {
     "C02": dict(
         level="model_checking",
         clauses=GEN_CLAUSES_SPEC,
-        phases=dict(quick=[dict(profile="core2")], thorough=[dict(profile="core2"), dict(profile="core3")]),
+        phases=dict(quick=[dict(profile="core2"), dict(profile="wins3"), dict(profile="tall2")],
+                    thorough=[dict(profile="core2"), dict(profile="core3"), dict(profile="wins4"), dict(profile="tall2"), dict(profile="reroot3")]),
     ),
     "C03": dict(
         level="model_checking",
